@@ -465,6 +465,7 @@ scpi_result_t h_torture(World &w, const InstrOpts &o) {
 }   // namespace
 
 void instrument_install(World &w, const InstrOpts &o) {
+    for (int i = 0; i < o.pad_before && i < 400; i++) w.add_command(fmt("FILLer%d:GROup%c:ITEM%s", i / 26, 'A' + i % 26, i % 2 ? "?" : ""), [](World &) { return SCPI_RES_OK; });
     w.add_standard_commands();
     w.add_command("TEST:BOOL", [](World &ww) {
         scpi_bool_t b = FALSE;
@@ -539,6 +540,13 @@ void instrument_install(World &w, const InstrOpts &o) {
     });
     w.add_command("TEST:CALCulate:MEASurement:LIMit:CLIPping:STATe:LOWer?", [](World &ww) {
         SCPI_ResultInt32(ww.ctx, 302);
+        return SCPI_RES_OK;
+    });
+    // the application points the context at another unit table (UNIT:... style settings)
+    w.add_command("TEST:UNITs", [](World &ww) {
+        int32_t which = 0;
+        if (!SCPI_ParamInt32(ww.ctx, &which, TRUE)) return SCPI_RES_ERR;
+        ww.use_units(which);
         return SCPI_RES_OK;
     });
     w.add_command("TEST:MULTi?", h_multi);
